@@ -53,6 +53,14 @@ def scenario(ctx, seed):
     if rng.random() < 0.35:
         sc["regen_manifest"] = True
         sc["sources"]["build.ninja.in"] = "# what the manifest is generated from\n"
+        cmds = [s_ for s_ in sc["stmts"] if s_["kind"] == "cmd" and not s_["generator"]]
+        if cmds and rng.random() < 0.6:
+            # the statement that regenerates the manifest needs (order-only) or asks for (validation) another statement's output:
+            # that one can have work to do while the manifest itself is current - the build that brings the manifest up to date then
+            # runs something, finds the manifest untouched and goes on with the real build; -n has to go on as well
+            side = rng.choice(cmds)
+            sc["regen_manifest_oins" if rng.random() < 0.6 else "regen_manifest_vals"] = [side["outs"][0]]
+            ctx.count("scenarios_manifest_statement_with_side_work")
     t = e2e.Tree(sc)
     rep = {"seed": seed}
     try:
